@@ -68,6 +68,15 @@ def pool(tier, seed):
         # one look-ahead per csvpath: '@n = count()' twice would recurse
         if sum(1 for c in (x, y) if c["k"] == "assign" and c["args"][1]["name"] == "count" and not c["args"][1]["args"]) > 1:
             continue
+        # a look-ahead ('@n = count()') together with skip()/stop() is a listed finding (the look-ahead ignores them): not pooled
+        def is_la(c):
+            return c["k"] == "assign" and c["args"][1]["name"] == "count" and not c["args"][1]["args"]
+
+        def is_ctl(c):
+            return any(n["k"] == "fn" and n["name"] in ("skip", "stop", "fail_and_stop") for n in L.walk(c))
+
+        if (is_la(x) and is_ctl(y)) or (is_la(y) and is_ctl(x)):
+            continue
         # the same print node twice would share its once-marker; distinct uids
         if x["name"] == "print" and y["name"] == "print":
             y["name_q"] = "pp2"
